@@ -95,3 +95,12 @@ def octets : List Bool → List UInt8
 def decode (s : List UInt8) : List UInt8 := octets (charBits (body s))
 
 end Percival.Spec.Rfc4648
+
+namespace Percival.Spec.Rfc4648
+/-- executable form of `WF` (used by the correspondence driver) -/
+def wfb (s : List UInt8) : Bool :=
+  s.length % 4 == 0 &&
+  (let b := body s
+   let p := s.drop b.length
+   b.all isAlpha && (p == [] || p == [pad] || p == [pad, pad]))
+end Percival.Spec.Rfc4648
